@@ -41,6 +41,14 @@ struct Conn {
 struct World {
 	conns: Vec<Conn>,
 	log: Vec<String>,
+	/// the thread that iterates over `incoming()` (tacd's accept loop)
+	accept_thread: Option<std::thread::ThreadId>,
+}
+
+thread_local! {
+	/// address of the live `Incoming` of this (accept) thread, for connections that the server handles
+	/// on the accept thread itself instead of a thread of their own (see `SimStream::read`)
+	static INLINE_PTR: std::cell::Cell<usize> = std::cell::Cell::new(0);
 }
 
 type Shared = Arc<(Mutex<World>, Condvar)>;
@@ -79,6 +87,22 @@ impl Read for SimStream {
 					return Ok(0);
 				}
 			}
+			// The server reads on its accept thread: it handles connections one after the other, so
+			// while this read blocks nothing else is accepted.  There is no handler thread to release:
+			// this client is driven from here until it has sent something or closed; a client that
+			// stays connected and silent blocks the accept loop for good (reported, run ended).
+			if g.accept_thread == Some(std::thread::current().id()) {
+				drop(g);
+				let ptr = INLINE_PTR.with(|p| p.get());
+				if ptr != 0 {
+					let inc: &mut Incoming<'static> = unsafe { &mut *(ptr as *mut Incoming<'static>) };
+					inc.drive_inline(self.id);
+				}
+				g = m.lock().unwrap();
+				g.conns[self.id].go = true;
+				continue;
+			}
+			let c = &mut g.conns[self.id];
 			// park: nothing to do until the simulator releases this handler with input available
 			c.go = false;
 			c.server_waiting = true;
@@ -208,6 +232,9 @@ pub struct Incoming<'a> {
 	await_park: Option<usize>,
 	final_started: bool,
 	events: Vec<String>,
+	/// inside `drive_inline`: the "handler" is the calling thread, there is nobody to release or wait for
+	inline: bool,
+	inline_noted: bool,
 }
 
 extern "C" {
@@ -241,6 +268,7 @@ impl SimListener {
 	}
 
 	pub fn incoming(&self) -> Incoming<'_> {
+		self.w.0.lock().unwrap().accept_thread = Some(std::thread::current().id());
 		let todo: VecDeque<Value> = self.plan["history"].as_array().cloned().unwrap_or_default().into_iter().collect();
 		Incoming {
 			l: self,
@@ -250,6 +278,8 @@ impl SimListener {
 			await_park: None,
 			final_started: false,
 			events: vec![],
+			inline: false,
+			inline_noted: false,
 		}
 	}
 }
@@ -272,6 +302,9 @@ impl<'a> Incoming<'a> {
 
 	/// wait until the handler of `conn` has parked in read() or dropped its stream
 	fn wait_parked(&mut self, conn: usize) {
+		if self.inline {
+			return;
+		}
 		let (m, cv) = &*self.l.w;
 		let mut g = m.lock().unwrap();
 		let mut waited = 0;
@@ -294,6 +327,9 @@ impl<'a> Incoming<'a> {
 
 	/// let the handler of `conn` run until it parks again or finishes
 	fn release(&mut self, conn: usize) {
+		if self.inline {
+			return;
+		}
 		{
 			let (m, cv) = &*self.l.w;
 			let mut g = m.lock().unwrap();
@@ -315,6 +351,40 @@ impl<'a> Incoming<'a> {
 		if g.conns[conn].server_panicked {
 			self.events.push(format!("conn{}:handler_panicked", conn));
 		}
+	}
+
+	/// see `SimStream::read`: called on the accept thread, from inside the server's read of `conn`
+	fn drive_inline(&mut self, conn: usize) {
+		self.inline = true;
+		if !self.inline_noted {
+			self.inline_noted = true;
+			self.events.push(format!("conn{}:read_on_the_accept_thread", conn));
+		}
+		let mut guard = 0;
+		loop {
+			{
+				let (m, _) = &*self.l.w;
+				let g = m.lock().unwrap();
+				let c = &g.conns[conn];
+				if !c.c2s.is_empty() || c.client_closed || c.client_reset {
+					break;
+				}
+			}
+			let i = match self.clients.iter().position(|c| c.conn == conn) {
+				Some(i) => i,
+				None => self.harness_error("inline read on an unknown connection"),
+			};
+			if self.clients[i].finished || self.clients[i].kind == "stall" {
+				let kind = self.clients[i].kind.clone();
+				self.finish(json!({ "ok": false, "problems": [format!("accept_loop_blocked_by_silent_client:{}", kind)], "facts": {}, "handler_panics": [] }));
+			}
+			self.step_client(i);
+			guard += 1;
+			if guard > 10_000 {
+				self.harness_error("inline client made no progress in 10000 steps");
+			}
+		}
+		self.inline = false;
 	}
 
 	fn new_conn(&mut self) -> (usize, SimStream) {
@@ -649,6 +719,7 @@ impl<'a> Iterator for Incoming<'a> {
 	type Item = io::Result<SimStream>;
 
 	fn next(&mut self) -> Option<io::Result<SimStream>> {
+		INLINE_PTR.with(|p| p.set(self as *mut Incoming as usize));
 		// the thread spawned for the stream handed out last must have parked (or finished) before
 		// anything else happens
 		if let Some(c) = self.await_park.take() {
